@@ -330,7 +330,7 @@ impl Check for C07 {
     }
 
     fn rule(&self) -> String {
-        "one case in fourteen is a Reconnect history: one address connects, exchanges a packet each way and closes gracefully (either side asks); the server application drops the lingering entry in its Disconnect handler (two cases in three; the same address then connects again 0-19 s later) or leaves it alone (the address comes back after 21-26 s); up to three datagrams of the second handshake are lost; then both applications exchange a Reliable packet every second for 26 s on a loss-free link: exactly one Connect per side for the second handshake, no terminal event, every packet delivered - nothing the first connection left behind (timers, entries) may reset or replace the second. Otherwise: case = World with a real Server and 1-4 (quick) real Clients whose configurations are generated independently (compatible or not; receive allocations and rates of 2^32 and beyond included, which are advertised saturated), each on its own link with per-datagram fates for the handshake frames (delay up to 3 s, drop, duplicate up to 5 s apart, corrupt), starting at generated ticks (simultaneous handshakes), one client in ten losing exactly the first nine or ten SYN-ACKs, plus late network duplicates of handshake frames that really travelled (never counted as forgeries), clients that call disconnect() right after submitting their last Reliable packet (one in four), clients whose frames are lost for 1-30 s after they connected while a third of the servers time silent peers out after 1.5-4.5 s, and forged handshake / disconnect frames injected at generated moments with spoofed source addresses (a client's address towards the server, the server's address towards a client) carrying random nonces, genuine nonces +-1, the genuine current nonce, or the nonce of an earlier attempt. After Connect each client runs an ordered echo stream through the server, and the server may push a burst of Reliable packets larger than the client's advertised receive allocation. Monitor oracle over wire and events: server Connect(a) only after an ACK from a carrying the nonce of the latest SYN-ACK sent to a was delivered; client Connect only after a SYN-ACK echoing its SYN nonce was delivered; at most one Connect per client and per server-side connection; the server's Connect never precedes the client's, and once a client is connected and frames are delivered promptly the server reports its Connect within three SYN-ACK repeat intervals (as long as its 22 s handshake budget and the client's timeout allow); no server Connect later than the 22 s budget of its handshake (a stale ACK creates nothing, with handshake errors reported or not); first data frame ids equal the advertised nonces; every connection the server reports was completed with the server nonce the client accepted (a connection is never re-created behind a living client's back); refusals carry the error the documented rule demands and the client reports the same error (ServerFull only when the server's limits are below the number of clients: a client is never refused on account of its own pending entry); no Error event on a client that has connected unless it is a Timeout; echo streams arrive in order without gaps for Reliable packets; bytes per second on the wire stay within min(local max_send_rate, peer max_receive_rate); the bytes the server has outstanding towards a client (fragment-rounded, judged from the wire and the acks delivered) never exceed the max_receive_alloc that client advertised. Non-trivial = at least one handshake frame was lost, duplicated, corrupted or forged. Distinct = distinct serialised case.".into()
+        "one case in fourteen is a Reconnect history: one address connects, exchanges a packet each way and closes gracefully (either side asks); the server application drops the lingering entry in its Disconnect handler (two cases in three; the same address then connects again 0-19 s later) or leaves it alone (the address comes back after 21-26 s); up to three datagrams of the second handshake are lost; then both applications exchange a Reliable packet every second for 26 s on a loss-free link: exactly one Connect per side for the second handshake, no terminal event, every packet delivered - nothing the first connection left behind (timers, entries) may reset or replace the second. Otherwise: case = World with a real Server and 1-4 (quick) real Clients whose configurations are generated independently (compatible or not; receive allocations and rates of 2^32 and beyond included, which are advertised saturated), each on its own link with per-datagram fates for the handshake frames (delay up to 3 s, drop, duplicate up to 5 s apart, corrupt), starting at generated ticks (simultaneous handshakes), one client in ten losing exactly the first nine or ten SYN-ACKs, plus late network duplicates of handshake frames that really travelled (never counted as forgeries), clients that call disconnect() right after submitting their last Reliable packet (one in four), clients whose frames are lost for 1-30 s after they connected while a third of the servers time silent peers out after 1.5-4.5 s, and forged handshake / disconnect frames injected at generated moments with spoofed source addresses (a client's address towards the server, the server's address towards a client) carrying random nonces, genuine nonces +-1, the genuine current nonce, or the nonce of an earlier attempt. After Connect each client runs an ordered echo stream through the server, and the server may push a burst of Reliable packets larger than the client's advertised receive allocation. Monitor oracle over wire and events: server Connect(a) only after an ACK from a carrying the nonce of the latest SYN-ACK sent to a was delivered; client Connect only after a SYN-ACK echoing its SYN nonce was delivered; at most one Connect per client and per server-side connection; the server's Connect never precedes the client's, and once a client is connected and frames are delivered promptly the server reports its Connect within three SYN-ACK repeat intervals (as long as its 22 s handshake budget and the client's timeout allow); no server Connect later than the 22 s budget of its handshake (a stale ACK creates nothing, with handshake errors reported or not); first data frame ids equal the advertised nonces; every connection the server reports was completed with the server nonce the client accepted (a connection is never re-created behind a living client's back); refusals carry the error the documented rule demands and the client reports the same error (ServerFull only when the server's limits are below the number of clients: a client is never refused on account of its own pending entry); no Error event on a client that has connected unless it is a Timeout; echo streams arrive in order without gaps for Reliable packets; the server does not report Error(Timeout) for a connection sooner than its active timeout after Connect, and does not forget a reported connection without a terminal event (addresses that were sent forged frames excepted); bytes per second on the wire stay within min(local max_send_rate, peer max_receive_rate); the bytes the server has outstanding towards a client (fragment-rounded, judged from the wire and the acks delivered) never exceed the max_receive_alloc that client advertised. Non-trivial = at least one handshake frame was lost, duplicated, corrupted or forged. Distinct = distinct serialised case.".into()
     }
 
     fn assumptions(&self) -> Vec<String> {
@@ -807,6 +807,32 @@ impl Check for C07 {
             }
             if forged_current_ack.contains(&a) || forged_current_error.contains(&a) || forged_current_synack.contains(&a) {
                 classes.push("forged_frame_with_genuine_nonce");
+            }
+        }
+        // a completed handshake yields a connection, not a leftover that some stale handshake timer tears down: the server
+        // does not time an established connection out before its own active timeout has passed since Connect, and does not
+        // forget it without a terminal event
+        for (k, _spec) in c.clients.iter().enumerate() {
+            let Some(ci) = ci_of[k] else { continue };
+            let a = w.clients[ci].addr;
+            if forged_any.contains(&a) {
+                continue;
+            }
+            let Some((cseq, ct)) = w.server_events.iter().find(|(_, _, e)| matches!(e, SEv::Connect(x) if *x == a)).map(|p| (p.0, p.1)) else { continue };
+            let term = w.server_events.iter().find(|(s, _, e)| *s > cseq && matches!(e, SEv::Disconnect(x) | SEv::Error(x, _) if *x == a));
+            if let Some((_, t, SEv::Error(_, SErr::Timeout))) = term {
+                if *t + 2000 < ct + c.server.ep.active_timeout_ms as u64 * 1000 {
+                    return CaseResult::fail(
+                        "oracle:c07:connection_torn_down_within_its_own_timeout",
+                        format!("the server reported Connect({a}) at t={ct} us and Error({a}, Timeout) at t={t} us, only {} us later; its active_timeout_ms is {} (the handshake had taken {} SYN-ACK transmissions)", t - ct, c.server.ep.active_timeout_ms, w.wire.iter().filter(|r| r.to == a && r.seq < cseq && matches!(Frame::read(&r.bytes), Some(Frame::HandshakeSynAckFrame(_)))).count()),
+                    );
+                }
+            }
+            if term.is_none() && !w.server_has_client(&a) {
+                return CaseResult::fail(
+                    "oracle:c07:connection_forgotten_without_terminal_event",
+                    format!("the server reported Connect({a}) at t={ct} us and no terminal event for it afterwards, yet Server::client({a}) returns nothing at the end (t={} us)", w.now_us),
+                );
             }
         }
         let faults = w.wire.iter().filter(|r| r.bytes.first().map_or(false, |b| *b < 4) && !matches!(r.fate, Fate::Deliver(0))).count();
